@@ -45,6 +45,7 @@ var (
 	out      = flag.String("out", "", "report file (JSON)")
 	strip    = flag.String("strip", "", "prefix stripped from file names in the report")
 	label    = flag.String("label", "", "prefix added to file names in the report")
+	depth    = flag.Bool("depth", false, "guard every function against unbounded recursion (mcrt.Enter/Leave)")
 )
 
 func main() {
@@ -179,6 +180,13 @@ func rewriteFile(p *packages.Package, f *ast.File, fname string, rep *report, ne
 				var b bytes.Buffer
 				_ = format.Node(&b, p.Fset, fd.Recv.List[0].Type)
 				curFunc = "(" + b.String() + ")." + fd.Name.Name
+			}
+			if *depth && fd.Body != nil && fd.Name.Name != "init" {
+				id := newSite(fd.Pos(), "func")
+				enter := &ast.ExprStmt{X: &ast.CallExpr{Fun: mc("Enter"), Args: []ast.Expr{lit(id)}}}
+				leave := &ast.DeferStmt{Call: &ast.CallExpr{Fun: mc("Leave")}}
+				fd.Body.List = append([]ast.Stmt{enter, leave}, fd.Body.List...)
+				changed = true
 			}
 		}
 		return true
